@@ -7,7 +7,7 @@ NOT_APPLICABLE = {}
 
 PROPS = {
     'C01': {
-        'families': [('ep:pipe', 400, 12000), ('ep:sizes', 400, 8000), ('tp', 100, 3000)],
+        'families': [('ep:pipe', 400, 4000), ('ep:sizes', 400, 8000), ('tp', 100, 3000)],
         'rule': 'message sequences (text, binary, ping, pong) with payload sizes 0, 1, 125/126/127, 4095..4097, 65535/65536/65537, 70000 written by a '
                 'real endpoint of either role under partial writes and WouldBlock, its real wire output read by a real endpoint of the other role '
                 'under several segmentations, pre-read splits and six read-buffer sizes; read list compared with written list',
@@ -22,6 +22,7 @@ PROPS = {
         'level_note': 'Composition of C10, C18, C19, C05. BytesMut capacity policy is not modelled (chunk sizes universally quantified).',
     },
     'C04': {
+        'modules': ['C04', 'C04Progress'],
         'families': [('tp', 2000, 60000), ('ep:close', 500, 10000)],
         'rule': 'two real endpoints (client and server) joined by two in-memory pipes: adaptive random schedules of {write data, ping, pong, flush, read, '
                 'close} on both sides x delivery granularity (1 byte .. all) x write-side WouldBlock windows x flush blocks, incl. simultaneous close and '
@@ -158,7 +159,7 @@ PROPS = {
         'level_note': 'The client-side schedule independence is covered by correspondence only (same machine code, C17_interrupt_is_identity applies).',
     },
     'C03': {
-        'families': [('corpus:defects', 0, 0), ('ep:close', 2500, 80000), ('ep:mixed', 800, 20000), ('ep:hostile', 500, 20000)],
+        'families': [('corpus:defects', 0, 0), ('ep:exhaustive', 3, 4), ('ep:close', 2500, 80000), ('ep:mixed', 800, 20000), ('ep:hostile', 500, 20000)],
         'rule': 'interleavings of user calls (read, write of each kind, flush, close) with peer frames (data, ping, close, garbage after '
                 'close), transport EOF/reset at any point, WouldBlock on any write or flush, both roles; corpus = the witnesses of the '
                 'defects found while modelling (D1-D7)',
